@@ -663,6 +663,40 @@ theorem invE_step (g : Cfg) (s : S) (op : Op) (hd : InvD g s) (hi : InvE g s) : 
         simp [hh, hr, hc] at this
         show (pAddReadWrite g { s with isWAdded := true, connecting := true }).wl = []
         rw [e1]; exact this.2
+  | registerDialNow =>
+    show InvE g (ghost (registerDialNow g s) (s.edgeDue || (!s.hung && !s.reg && !s.closed)) s.early)
+    unfold registerDialNow
+    split
+    · rename_i h
+      constructor
+      · intro hm hc hh hr hy hw
+        have hreg : s.reg = true := by
+          cases hrr : s.reg
+          · have hc' : s.closed = false := hc
+            have hh' : s.hung = false := hh
+            simp [hh', hrr, hc'] at h
+          · rfl
+        have := hi.et hm hc hh hreg hy hw
+        show (s.edgeDue || _) = true
+        rw [this]; simp
+      · exact hi.ec
+    · rename_i h
+      have h3 : (s.hung = false ∧ s.reg = false) ∧ s.closed = false := by simpa using h
+      obtain ⟨⟨hh, hr⟩, hc⟩ := h3
+      have e1 : (pAddReadWrite g { s with isWAdded := true, idle := true }).wl = s.wl := by
+        have := D_pAddReadWrite g { s with isWAdded := true, idle := true }
+        simp only [D, Prod.mk.injEq] at this; exact this.2.2.1
+      have e2 : R (pAddReadWrite g { s with isWAdded := true, idle := true }) = (true, s.connecting, s.connEv) := by
+        simp [pAddReadWrite, kctl, R]
+      simp only [R, Prod.mk.injEq] at e2
+      constructor
+      · intro _ _ _ _ _ _
+        show (s.edgeDue || (!s.hung && !s.reg && !s.closed)) = true
+        simp [hh, hr, hc]
+      · intro hc' hy hcn hcv
+        show (pAddReadWrite g { s with isWAdded := true, idle := true }).wl = []
+        rw [e1]
+        exact hi.ec hc hy (by rw [← e2.2.1]; exact hcn) (by rw [← e2.2.2]; exact hcv)
   | evTake o0 i e ks => exact invE_evTake g s o0 i e ks hd hi
   | evEnd => exact invE_evEnd g s hi
   | evConnEnd => exact invE_evConnEnd g s hi
